@@ -432,6 +432,24 @@ def replay(payload):
                         break
                 if t.starting_mass != f0.starting_mass:
                     problems.append(f'{m.label}: starting_mass differs from a fresh builder')
+        # weather-enabled flights rejected before any weather file was opened: missing weather for the departure date,
+        # and an out-of-envelope state at the first climb point
+        wb = LegacyBuilder(options=Options(iterate_mass=False, use_weather=True))
+        m0 = missions[0]
+        for what, mission, ok_types in (('no weather file for the departure date', m0, (FileNotFoundError, ValueError, OSError, KeyError)),
+                                        ('load factor 0 (below the table masses) with weather enabled',
+                                         Mission(m0.origin, m0.destination, m0.departure, m0.arrival, 0.0, m0.aircraft_type), (ValueError, FileNotFoundError, OSError))):
+            try:
+                wb.fly(pm, mission)
+            except ok_types:
+                pass
+            except (AttributeError, TypeError, NameError, UnboundLocalError) as e:
+                problems.append(f'{what}: the rejection surfaced as the internal error {type(e).__name__}: {e}')
+            except Exception:   # noqa
+                pass
+            if 'ctx' in wb.__dict__:
+                problems.append(f'{what}: context left on the builder after the rejected flight')
+                del wb.__dict__['ctx']
         return dict(reproduced=bool(problems), observed=problems[:6],
                     required='rejections surface their reason; flights equal a fresh builder bit for bit')
     finally:
